@@ -765,14 +765,18 @@ func (s *PersistentHybridIndex) flushMemtable(mt *memtable) error {
 	// Close gzip writers to ensure all data is flushed
 	if vectorGz != nil {
 		vectorGz.Close()
+		verifPoint("flush.gzclosed", segmentID, 1)
 	}
 	if textGz != nil {
 		textGz.Close()
+		verifPoint("flush.gzclosed", segmentID, 2)
 	}
 	if metadataGz != nil {
 		metadataGz.Close()
+		verifPoint("flush.gzclosed", segmentID, 3)
 	}
 	hybridGz.Close()
+	verifPoint("flush.gzclosed", segmentID, 0)
 	verifPoint("flush.closed", segmentID)
 
 	// Get file sizes
